@@ -652,6 +652,8 @@ class FnCtx:
         else:
             cal = strip_casts(ks[0])
             args = ks[1:]
+            if cal.get('kind') == 'CXXPseudoDestructorExpr':
+                return '((void)0)'      # destructor of a scalar: no effect
             if cal.get('kind') != 'DeclRefExpr':
                 # call through a function pointer / closure value
                 fp = self.ex(ks[0])
@@ -714,13 +716,10 @@ class FnCtx:
         if n.get('isArray'):
             self.err(n, 'array new')
         init = None
-        placement = []
-        for c in ks:
-            if init is None and (c.get('kind') in ('CXXConstructExpr', 'InitListExpr', 'CXXTemporaryObjectExpr') or
-                                 (self.lw.ty(c).kind != 'ptr' and not n.get('isPlacement'))):
-                init = c
-            else:
-                placement.append(c)
+        placement = list(ks)
+        if n.get('initStyle') and ks:
+            init = ks[0]
+            placement = ks[1:]
         if self.pre is None:
             self.err(n, 'new outside a full-expression')
         tmp = self.newtmp()
